@@ -43,6 +43,17 @@ def py_parity(sym, c):
     return (c[0] + c[1]) % 2
 
 
+def py_valid(sym, c):
+    """is `c` a legal charge label of `sym` (harness-side, independent of symmray)"""
+    if sym in ("Z2", "Z4", "U1"):
+        if not isinstance(c, int) or isinstance(c, bool):
+            return False
+        return c in (0, 1) if sym == "Z2" else (c in (0, 1, 2, 3) if sym == "Z4" else True)
+    if not (isinstance(c, tuple) and len(c) == 2 and all(isinstance(q, int) for q in c)):
+        return False
+    return all(q in (0, 1) for q in c) if sym == "Z2Z2" else True
+
+
 def py_sector_charge(sym, sector, duals):
     return py_combine(sym, [py_sign(sym, c, d) for c, d in zip(sector, duals)])
 
